@@ -1,10 +1,10 @@
 package chk
 
 import (
-	"strings"
 	"fmt"
 	"go/token"
 	"go/types"
+	"strings"
 
 	"golang.org/x/tools/go/ssa"
 )
@@ -3413,46 +3413,46 @@ func ruleResultOwnArray(p *Prog, r *Report, names []string) {
 			})
 		}
 		for _, sc := range scope {
-		ret := sc.ptr
-		eachInstr(sc.f, func(b *ssa.BasicBlock, in ssa.Instruction) {
-			st, ok := in.(*ssa.Store)
-			if !ok || st.Addr != ret {
-				return
-			}
-			ns++
-			// allowed: append(<load of *ret> …, …), a re-slice of *ret, a make
-			seen := map[ssa.Value]bool{}
-			var fromNode func(v ssa.Value) bool
-			fromNode = func(v ssa.Value) bool {
-				if seen[v] {
-					return false
+			ret := sc.ptr
+			eachInstr(sc.f, func(b *ssa.BasicBlock, in ssa.Instruction) {
+				st, ok := in.(*ssa.Store)
+				if !ok || st.Addr != ret {
+					return
 				}
-				seen[v] = true
-				switch x := v.(type) {
-				case *ssa.TypeAssert:
-					return true
-				case *ssa.Extract:
-					_, isTA := x.Tuple.(*ssa.TypeAssert)
-					return isTA
-				case *ssa.Phi:
-					for _, e := range x.Edges {
-						if fromNode(e) {
-							return true
+				ns++
+				// allowed: append(<load of *ret> …, …), a re-slice of *ret, a make
+				seen := map[ssa.Value]bool{}
+				var fromNode func(v ssa.Value) bool
+				fromNode = func(v ssa.Value) bool {
+					if seen[v] {
+						return false
+					}
+					seen[v] = true
+					switch x := v.(type) {
+					case *ssa.TypeAssert:
+						return true
+					case *ssa.Extract:
+						_, isTA := x.Tuple.(*ssa.TypeAssert)
+						return isTA
+					case *ssa.Phi:
+						for _, e := range x.Edges {
+							if fromNode(e) {
+								return true
+							}
+						}
+					case *ssa.Slice:
+						return fromNode(x.X)
+					case *ssa.Call:
+						if isBuiltin(x, "append") {
+							return fromNode(x.Call.Args[0])
 						}
 					}
-				case *ssa.Slice:
-					return fromNode(x.X)
-				case *ssa.Call:
-					if isBuiltin(x, "append") {
-						return fromNode(x.Call.Args[0])
-					}
+					return false
 				}
-				return false
-			}
-			if fromNode(st.Val) {
-				bad = p.Pos(st.Pos())
-			}
-		})
+				if fromNode(st.Val) {
+					bad = p.Pos(st.Pos())
+				}
+			})
 		}
 		if bad != "" {
 			r.Bad(rule, n, "the result has an array of its own", bad, "the result slice is set to (or grown from) a list of the document itself at "+bad+": the result and the document share one array")
